@@ -2,6 +2,7 @@ package rules
 
 import (
 	"fmt"
+	"time"
 	"go/constant"
 	"go/types"
 	"strings"
@@ -15,9 +16,12 @@ import (
 // newExec creates an abstract interpreter bound to the analysed tree.
 func newExec(c *core.Ctx) *absint.Exec {
 	x := absint.New(c.P.SSA, c.P.InScope)
-	if c.Tier == "thorough" {
-		x.MaxDepth = 8
+	if c.Deep {
+		// thorough tier, second pass: two exactly explored iterations per loop, deeper inlining
+		x.MaxDepth = 7
 		x.Unroll = 2
+		x.MaxStates = 400000
+		x.MaxWall = 60 * time.Second
 	} else {
 		x.MaxDepth = 5
 	}
